@@ -1,7 +1,7 @@
 (* C01 — IBAN acceptance is exactly the ISO 13616 rule set over the bundled country table.
    Only: data obligations, the theorem closed by `exact`, Print Assumptions, non-vacuity. *)
-From Schwifty Require Import Lib.Base Lib.Lit Model.Clean Model.Data Model.Iban Spec.Iso13616.
-From Schwifty Require Import Proofs.NumFacts Proofs.IbanFacts Proofs.IbanTheorems Proofs.GenObligations.
+From Schwifty Require Import Lib.Base Lib.Lit Model.Clean Model.Data Model.Iban Spec.Iso13616 Spec.Whitespace.
+From Schwifty Require Import Proofs.CleanFacts Proofs.NumFacts Proofs.IbanFacts Proofs.IbanTheorems Proofs.GenObligations.
 From Schwifty Require Import Gen.Env Gen.IbanData Gen.IbanCfg.
 From Coq Require Import String.
 
@@ -15,6 +15,17 @@ Theorem C01_accept : forall national txt,
   (exists s, iban_new the_env the_iban_cfg the_table national txt false false = Ok s)
   <-> iso_ok the_table (clean the_env txt) = true.
 Proof. exact (fun national => new_iff the_env the_iban_cfg the_table national env_obl env_alpha_obl cfg_obl table_obl). Qed.
+
+(* "after removing whitespace": what the library's cleaning removes is exactly the white space of Spec/Whitespace.v
+   (written down by hand, not derived from the library) - no more (a dash or a zero-width space is not removed and so
+   makes the text invalid) and no less *)
+Lemma C01_ws_obl : ws_exact the_env = true.
+Proof. vm_cast_no_check (eq_refl true). Qed.
+
+Theorem C01_accept_ws : forall national txt,
+  (exists s, iban_new the_env the_iban_cfg the_table national txt false false = Ok s)
+  <-> iso_ok the_table (upper the_env (strip_whitespace txt)) = true.
+Proof. intros national txt. rewrite <- (clean_strip the_env txt C01_ws_obl). exact (C01_accept national txt). Qed.
 
 Theorem C01_compact : forall national txt s,
   iban_new the_env the_iban_cfg the_table national txt false false = Ok s -> s = clean the_env txt.
@@ -32,6 +43,7 @@ Proof.
 Qed.
 
 Print Assumptions C01_accept.
+Print Assumptions C01_accept_ws.
 Print Assumptions C01_compact.
 Print Assumptions C01_alphabet.
 
@@ -42,3 +54,6 @@ Example C01_ex_letters : iso_ok the_table (tx "MT84MALT011000012345MTLCAST001S")
 Proof. vm_compute. reflexivity. Qed.
 Example C01_ex_invalid : iso_ok the_table (tx "DE89370400440532013001") = false.
 Proof. vm_compute. reflexivity. Qed.
+Example C01_ex_dash : iso_ok the_table (upper the_env (strip_whitespace (tx "DE89-3704-0044-0532-0130-00"))) = false
+  /\ iso_ok the_table (upper the_env (strip_whitespace (tx "de89 3704 0044 0532 0130 00"))) = true.
+Proof. split; vm_compute; reflexivity. Qed.
